@@ -163,6 +163,13 @@ def main(tier):
             for v in (us if thorough or len(us) <= 4 else rng.sample(us, 4)):
                 dv, du = db.GetDefaultValue(cat), db.GetDefaultUnit(cat)
                 ref = db.Convert(qt, du, v, dv)
+                from barril.units import FractionScalar
+                for rname, mk in (("Scalar(quantity in v)", lambda: Scalar(ObtainQuantity(v, cat))), ("Scalar.CreateWithQuantity(quantity in v)", lambda: Scalar.CreateWithQuantity(ObtainQuantity(v, cat))),
+                                  ("FractionScalar(quantity in v)", lambda: FractionScalar(ObtainQuantity(v, cat))), ("FractionScalar(category, unit=v)", lambda: FractionScalar(cat, unit=v))):
+                    o = P.outcome(mk)
+                    events.append({"op": "Default", "route": rname, "u": du, "v": v, "src_category": cat, "ok": o[0] == "ok",
+                                   "ppt": ppt_of([float(o[1].GetValue())], [ref], max(abs(ref), abs(db.Convert(qt, du, v, 0.0)))) if o[0] == "ok" else 2 ** 31 - 1,
+                                   "unit": o[1].GetUnit() if o[0] == "ok" else "", "category": o[1].GetCategory() if o[0] == "ok" else ""})
                 o = P.outcome(lambda: Scalar(cat, None, v))
                 events.append({"op": "Default", "route": "Scalar(category, unit=v)", "u": du, "v": v, "src_category": cat, "ok": o[0] == "ok",
                                "ppt": ppt_of([o[1].GetValue()], [ref], max(abs(ref), abs(db.Convert(qt, du, v, 0.0)))) if o[0] == "ok" else 2 ** 31 - 1,
